@@ -307,16 +307,16 @@ def execOp (H : Bytes → Bytes) (e : Exec) (f : Frame) : ExecResult :=
   | .opReturnDataCopy =>
     match f.stack with
     | memOffset :: dataOffset :: length :: rest =>
-      let (offset64, overflow) := uint64WithOverflow dataOffset
-      if overflow then .err .returnDataOutOfBounds
+      -- `offset64, overflow := dataOffset.Uint64WithOverflow()`
+      if !isUint64 dataOffset then .err .returnDataOutOfBounds
       else
         let end_ := add dataOffset length
-        let (end64, overflow) := uint64WithOverflow end_
-        if overflow || decide (f.returnData.length < end64) then .err .returnDataOutOfBounds
-        else if offset64 > end64 then .err .goPanic
+        -- `end64, overflow := end.Uint64WithOverflow()`
+        if !isUint64 end_ || decide (f.returnData.length < lo64 end_) then .err .returnDataOutOfBounds
+        else if lo64 dataOffset > lo64 end_ then .err .goPanic   -- `returnData[offset64:end64]`
         else
           match Mem.set f.mem (lo64 memOffset) (lo64 length)
-              ((f.returnData.drop offset64).take (end64 - offset64)) with
+              ((f.returnData.drop (lo64 dataOffset)).take (lo64 end_ - lo64 dataOffset)) with
           | some m => .ok { f with stack := rest, mem := m } []
           | none => .err .goPanic
     | _ => .err .goPanic
